@@ -499,6 +499,7 @@ int main(void)
 			coder c;
 			if (!coder_parse(l.tok[1], &c)) { printf("bad-coder\n"); continue; }
 			sweep s;
+			double t_start = c06_now();
 			memset(&s, 0, sizeof(s));
 			s.c = &c;
 			lzma_stream z = LZMA_STREAM_INIT;
@@ -549,7 +550,7 @@ int main(void)
 					sweep_one(&s, it);
 				}
 			}
-			printf(" runs=%lu diffs=%lu\n", s.runs, s.diffs);
+			printf(" ms=%.0f runs=%lu diffs=%lu\n", (c06_now() - t_start) * 1000.0, s.runs, s.diffs);
 			lzma_end(&s.strm);
 			c06_result_free(&s.ref);
 			c06_result_free(&s.cur);
